@@ -11,6 +11,12 @@ Require Import SDS.Check.Common.
 Import ListNotations.
 Open Scope N_scope.
 
+(* the extreme arguments, by name: the case files refer to these constants instead of repeating 64-bit numerals
+   (a numeral of that size costs the parser ~100x its text in memory) *)
+Definition MX : N := 18446744073709551615.   (* usize::MAX *)
+Definition MX1 : N := 18446744073709551614.  (* usize::MAX - 1 *)
+Definition H63 : N := 9223372036854775808.   (* 2^63 *)
+
 (* one step of an iterator: op 0 = next, 1 = next_back, 2 = nth(n), 3 = nth_back(n) *)
 Definition istep (A : Type) : Type := (N * N * ires A)%type.
 
